@@ -255,6 +255,14 @@ func main() {
 				sizes = append(sizes, 2*C+1, 2*C, C-1)
 			}
 		}
+		// one more small size: the one (1..48) for which the binary file length is a multiple of 48, i.e. the armor's last
+		// base64 line is full
+		for n := 2; n <= 49; n++ {
+			if f, _, _, _, _, _ := mkfile(n); f != nil && len(f)%48 == 0 {
+				sizes = append(sizes, n)
+				break
+			}
+		}
 		for _, n := range sizes {
 			file, hdr, _, pl, _, pt := mkfile(n)
 			if file == nil {
@@ -314,6 +322,8 @@ func main() {
 					rd = strings.NewReader(refage.Armor(tampered))
 				case 7:
 					rd = strings.NewReader(refage.Armor(file) + string(tampered[len(file):]))
+				case 10:
+					rd = bytes.NewReader(tampered) // already armored text
 				case 8:
 					rd = strings.NewReader(refage.Armor(file) + strings.Repeat(" ", 1024) + string(tampered[len(file):]))
 				case 9:
@@ -377,6 +387,26 @@ func main() {
 			}
 			if c.WantSample() {
 				c.Sample(map[string]interface{}{"plaintext_len": n, "file_len": len(file), "mutation": "truncate to len-1"})
+			}
+			// the armored text of the file cut short (an `age -a` process that died): every cut within 2 characters of a
+			// line boundary and every 97th position; sizes include one whose binary length is a multiple of 48
+			if n <= C+1 || scaled && n <= 3*C {
+				arm := refage.Armor(file)
+				for p := 0; p < len(arm); p++ {
+					nearNL := p < 3 || p >= len(arm)-40 || arm[p] == '\n' || arm[p-1] == '\n' || arm[p-2] == '\n' || p+1 < len(arm) && arm[p+1] == '\n'
+					if !nearNL && p%97 != 0 || !c.Mine() {
+						continue
+					}
+					if dr := refage.Dearmor(arm[:p]); dr.Accepted && bytes.Equal(dr.Data, file) {
+						continue // only the optional final newline is missing: still the whole file
+					}
+					id := fmt.Sprintf("n%d.armorcut%d", n, p)
+					if c.Replaying() && !c.Want(id) {
+						continue
+					}
+					c.DistinctOnce(ev.HashStr(id))
+					judgeSrc("truncation", id, []byte(arm[:p]), fmt.Sprintf("armored text cut to %d of %d characters", p, len(arm)), 10)
+				}
 			}
 			c.Part("extensions")
 			var exts []int
